@@ -134,7 +134,7 @@ func genC11(seed uint64, tier string) *world.Scenario {
 		switch kind {
 		case 0:
 			lo := r.Range(10, 60)
-			e.backends = []string{fmt.Sprintf("    linear:\n      sensor: %s\n      min: %d\n      max: %d", sensorRef(), lo, lo+r.Range(1, 40))}
+			e.backends = []string{fmt.Sprintf("    linear:\n      sensor: %s\n      min: %d\n      max: %d", sensorRef(), lo, lo+kernel.Pick(r, r.Range(1, 40), r.Range(1, 40), r.Range(1, 40), r.Range(1, 40), 0, 0, -r.Range(1, 20)))} // also an on/off threshold (min == max) and an inverted pair
 			if defect(0.1) {
 				// both forms at once, the step list empty
 				e.backends[0] += "\n      steps: " + kernel.Pick(r, "{}", "[]")
